@@ -321,17 +321,37 @@ struct F_copysign {
 };
 C13_B(F_fmin, fmin)
 C13_B(F_fmax, fmax)
-C13_B(F_fdim, fdim)
-C13_B(F_fmod, fmod)
-C13_B(F_remainder, remainder)
-#if C13_GRP == 5
-struct F_nextafter {
-    static constexpr char const* name = "nextafter";
-    constexpr auto operator()(Args<T, 2> const& p) const { return etl::nextafter(p.a[0], p.a[1]); }
-};
+
+// the mathematically defined result raises overflow / invalid / divide-by-zero: such a call need not be a
+// constant expression.  Decided with glibc on the harness side (never used as oracle for the values).
+template <typename... A>
+inline bool fp_exception(T ref, A... args)
+{
+    bool const any_nan = (isnan_(args) || ...);
+    bool const all_fin = ((!isnan_(args) && !isinf_(args)) && ...);
+    return (!any_nan && isnan_(ref)) || (all_fin && isinf_(ref));
+}
+#define C13_BX(ID, CALL)                                                                                               \
+    struct ID {                                                                                                        \
+        static constexpr char const* name = #CALL;                                                                     \
+        static bool raises_fp_exception(Args<T, 2> const& p)                                                           \
+        {                                                                                                              \
+            return fp_exception(std::CALL(p.a[0], p.a[1]), p.a[0], p.a[1]);                                            \
+        }                                                                                                              \
+        constexpr auto operator()(Args<T, 2> const& p) const { return etl::CALL(p.a[0], p.a[1]); }                     \
+    };
+C13_BX(F_fdim, fdim)
+C13_BX(F_fmod, fmod)
+C13_BX(F_remainder, remainder)
+#if C13_GRP == 5 && !defined(C13_NO_NEXTAFTER)
+C13_BX(F_nextafter, nextafter)
 #endif
 struct F_fma {
     static constexpr char const* name = "fma";
+    static bool raises_fp_exception(Args<T, 3> const& p)
+    {
+        return fp_exception(lib_fma(p.a[0], p.a[1], p.a[2]), p.a[0], p.a[1], p.a[2]);
+    }
     constexpr auto operator()(Args<T, 3> const& p) const { return etl::fma(p.a[0], p.a[1], p.a[2]); }
 };
 
